@@ -198,6 +198,8 @@ def check_property(prop, tier, base_seed):
         print(line)
 
     n_batches, n_examples = budget["batches"], budget["examples"]
+    if os.environ.get("VERIF_MAX_BATCHES"):  # used by the self-test only
+        n_batches = min(n_batches, int(os.environ["VERIF_MAX_BATCHES"]))
     wall_cap = budget["wall_s"]
     watchdog = budget.get("watchdog_s", max(300, wall_cap * 3))
     agg = {
